@@ -284,21 +284,26 @@ def apply(F, S):
 def extreme_unit(F, S, struct, rid, transform=None):
     """Minimum: cached index of the least slot, rescan when that slot is overwritten (Maximum through the mirror transform).
     Spec step:  deque' = store(deque, cur, x);  min' = γ(x < deque'[min], cur, γ(min == cur, ARGMIN(deque'), min));  cur' = WRAP(cur);  out = deque'[min']
-    ARGMIN loop: (m, idx) = (+inf, 0); for (i, v) in deque.iter().enumerate() { if v < m { m = v; idx = i } }; idx
-    Paper proof (DESIGN §9.9): with J: deque[min] <= every slot, the three arms re-establish J for deque'."""
+    ARGMIN loop: (m, idx) = (+inf, 0); for (i, v) in deque'.iter().enumerate() { if v < m { m = v; idx = i } }; idx
+    The rescan is evaluated *inlined* (loops are summarised), so it may live in a method, an associated function over a slice, or a
+    shared generic scan taking the comparison as a closure.  Paper proof (DESIGN §9.9): with J: deque[min] <= every slot, the three
+    arms re-establish J for deque'."""
     from norm import equal
     from terms import mk_gamma
     import math
     tr = transform or (lambda t: t)
-    mstruct = "Minimum"
     fn = F.method(struct, "next", trait="Next", next_input="f64")
-    finder = [f for f in F.fns_of(struct) if not f.derived and not f.d.get("impl_trait") and f.kind == "AssocFn" and f.name != "new" and F.loopy(f)]
-    if fn is None or len(finder) != 1:
-        S.bad(rid, "state-shape", struct, "%s no longer has the cached-extreme shape (next + one rescan helper)" % struct)
+    if fn is None:
+        S.bad(rid, "state-shape", struct, "%s::next(f64) not found" % struct)
         return
     tss, classes = typestate.all_structs(F)
     ts = tss[struct]
-    r = symex.evaluate(F, fn, canon=True)
+    try:
+        r = symex.evaluate(F, fn, symex.Policy(F, inline_loops=True), canon=True)
+    except symex.Unsupported as e:
+        S.bad(rid, "unrecognised", struct, "UNRECOGNISED idiom in %s: %s" % (fn.label, e), loc(fn.span))
+        return
+    ex = r["exec"]
     from rules_c14 import unstrict
     tr0 = tr
     tr = lambda t: unstrict(tr0(t))  # which of two equal slots is remembered does not matter for the value returned
@@ -312,28 +317,33 @@ def extreme_unit(F, S, struct, rid, transform=None):
     pb = ("pre", "self." + buf)
     okb = None
     why = ""
+    rescan = None
     for cur, mn in (curs, curs[::-1]):
         pc, pm = ("pre", "self." + cur), ("pre", "self." + mn)
         pf = list(ts.len_fields)[0]
         d2 = ("store", pb, pc, X)
-        rescan = tr(("ucall", finder[0].label, (("ref", ("self",), None),), 0))
+        got_mn = heap.get("self." + mn)
+        picks = {x for x in subterms(got_mn)} if got_mn is not None else set()
+        picks = [x for x in picks if isinstance(x, tuple) and x and x[0] == "pick"]
+        if len(picks) != 1:
+            why = why or "the cached extreme index is not refreshed by exactly one window scan (found %d)" % len(picks)
+            continue
+        rescan = picks[0]
         want_min = mk_gamma(("<", X, ("select", d2, pm)), pc, mk_gamma(("==", pc, pm), rescan, pm))
         want_cur = mk_gamma(("<", ("+", pc, cu(1)), ("pre", "self." + pf)), ("+", pc, cu(1)), cu(0))
-        checks = [("window", heap.get("self." + buf), d2), ("cached extreme index", heap.get("self." + mn), want_min),
+        checks = [("window", heap.get("self." + buf), d2), ("cached extreme index", got_mn, want_min),
                   ("write cursor", heap.get("self." + cur), want_cur), ("output", ret, ("select", d2, want_min))]
         bad = None
         for nm, got, want in checks:
             if got is None:
                 bad = "%s is not updated" % nm
                 break
-            if nm == "write cursor" and got == ("%", ("+", pc, cu(1)), ("pre", "self." + pf)):
-                continue
             ok, cx = equal(got, want)
             if not ok:
                 bad = "%s becomes %s; the cached-extreme step requires %s" % (nm, show(got)[:110], show(want)[:110])
                 break
         if bad is None:
-            okb = (cur, mn)
+            okb = (cur, mn, d2)
             break
         why = why or bad
     c_ = fieldclass.ctor(F, struct)
@@ -345,19 +355,19 @@ def extreme_unit(F, S, struct, rid, transform=None):
     if okb is None:
         S.bad(rid, "extreme-step", struct, "%s::next is not the cached-extreme step (store at the cursor; take the new value if it beats the cached extreme; rescan iff the cached slot was overwritten): %s" % (struct, why), loc(fn.span))
         return
-    # the rescan helper is a first-extreme ARGMIN over the whole window
-    g = finder[0]
-    r2 = symex.evaluate(F, g, canon=True)
-    ex = r2["exec"]
+    # the rescan is a first-extreme ARGMIN over the whole (updated) window
+    d2 = okb[2]
+    lid = rescan[3]
+    li = ex.loop_info.get(lid)
     ok = False
-    why = "rescan helper is not a single enumerate loop over the whole window"
-    if len(ex.loop_info) == 1:
-        li = list(ex.loop_info.values())[0]
+    why = "the rescan is not a single enumerate loop over the whole window"
+    if li is not None:
         summ = {k: tr(v) for k, v in li["summaries"].items()}
-        iv = [x for x in ex.ivar_bounds][0]
-        b = ex.ivar_bounds[iv]
-        elem = ("select", pb, iv)
-        whole = (b["array"] == ("self", buf) or b["array"] is None) and b["start"] == cu(0) and b["end"] == ("len", pb)
+        iv = ("ivar", lid)
+        b = ex.ivar_bounds.get(iv, {})
+        elem = ("select", d2, iv)
+        ln = b.get("end")
+        whole = (b.get("array") == ("self", buf) or b.get("array") is None) and b.get("start") == cu(0) and (ln == ("len", pb) or ln == ("pre", "self." + list(ts.len_fields)[0]))
         trackers = [(k, v) for k, v in summ.items() if isinstance(v, tuple) and v[0] == "pick"]
         mt = [(k, v) for k, v in trackers if v[1] == cf(math.inf)]
         it = [(k, v) for k, v in trackers if v[1] == cu(0)]
@@ -368,17 +378,16 @@ def extreme_unit(F, S, struct, rid, transform=None):
             cond = ("<", elem, lvm)
             okm, _ = equal(mv[4], mk_gamma(cond, elem, lvm))
             oki, _ = equal(ivv[4], mk_gamma(cond, iv, lvi))
-            ret2 = tr(r2["ret"])
-            if okm and oki and ret2 == ivv:
+            if okm and oki and ivv == rescan:
                 ok = True
             else:
-                why = "the loop does not keep (least value so far, its index) with a strict comparison: value update %s, index update %s" % (show(mv[4])[:80], show(ivv[4])[:80])
+                why = "the scan does not keep (least value so far, its index) with a strict comparison: value update %s, index update %s" % (show(mv[4])[:80], show(ivv[4])[:80])
         elif not whole:
             why = "the rescan does not cover the whole window [0, len)"
     if ok:
         S.ok(rid, "%s: cached-extreme step + first-extreme rescan over the whole window" % struct, write_cursor=okb[0], extreme_index=okb[1])
     else:
-        S.bad(rid, "extreme-rescan", struct, "%s: %s" % (g.label, why), loc(g.span))
+        S.bad(rid, "extreme-rescan", struct, "%s: %s" % (struct, why), loc(fn.span))
 
 
 def run(tier, repo=None, tag="repo"):
